@@ -91,3 +91,80 @@ def single_qubit_gates(ctx, res, names=None) -> dict:
                 f"literal is a unit-modulus multiple of the {name} matrix for every angle (polynomial identity in cos/sin of theta/2)",
                 f"the matrix literal of {name} is not a unit-modulus multiple of the textbook {name} gate: {why}", construct=f"{name} literal")
     return out
+
+
+# ------------------------------------------------------------------ module-level tables (tomography mappings)
+class CircVal:
+    """A 2-mode gate circuit folded to its matrix (model: Circuit(n) -> I_n, Unitary(M) -> M, c.add(g) -> g @ c)."""
+
+    def __init__(self, m):
+        self.m = m
+
+
+def eval_module_tables(ctx, rel: str) -> dict:
+    """Constant-fold the module-level statements of `rel` (assignments of literals, gate constructors,
+    `x.add(gate)` sequences, dict tables)."""
+    mod = ctx.ix.module(rel)
+    sq = ctx.ix.module(SQ)
+    lits: dict[str, list] = {}
+
+    def gate(name):
+        if name not in lits:
+            ci = sq.classes.get(name)
+            if ci is None:
+                raise NotFoldable(f"gate class {name}")
+            if len(ci.methods["__init__"].params()) != 1:
+                raise NotFoldable(f"gate {name} takes parameters")
+            lits[name] = gate_literal(ctx, ci)[0]
+        return lits[name]
+
+    def hook(fd, e):
+        f = src(e.func)
+        last = f.split(".")[-1]
+        if last in sq.classes and not e.args and (f == last or f == "qubit." + last):
+            return CircVal(gate(last))
+        if last == "Circuit" and len(e.args) == 1:
+            n = fd.fold(e.args[0])
+            return CircVal(meye(int(n.value().real)))
+        if last == "State" and len(e.args) == 1:
+            v = fd.fold(e.args[0])
+            return ("state", [x for x in v])
+        return None
+
+    angle_ring()
+    fd = Folder(call_hook=hook, angle_names=())
+    env = fd.env
+    for st in mod.tree.body:
+        try:
+            if isinstance(st, (ast.Assign, ast.AnnAssign)):
+                tgt = st.targets[0] if isinstance(st, ast.Assign) else st.target
+                if isinstance(tgt, ast.Name) and st.value is not None:
+                    env[tgt.id] = _fold_val(fd, st.value)
+            elif isinstance(st, ast.Expr) and isinstance(st.value, ast.Call) and isinstance(st.value.func, ast.Attribute) and st.value.func.attr == "add" and isinstance(st.value.func.value, ast.Name):
+                name = st.value.func.value.id
+                if name in env and isinstance(env[name], CircVal):
+                    args = st.value.args
+                    if len(args) > 1 and src(args[1]) != "0":
+                        raise NotFoldable("add at non-zero mode")
+                    g = _fold_val(fd, args[0])
+                    if not isinstance(g, CircVal):
+                        raise NotFoldable("added value is not a gate")
+                    env[name] = CircVal(mmul(g.m, env[name].m))
+        except NotFoldable as e:
+            tname = src(st)[:40]
+            env.setdefault("__unfoldable__", []).append(f"{tname}: {e}")
+    return env
+
+
+def _fold_val(fd, e):
+    if isinstance(e, ast.Dict):
+        out = {}
+        for k, v in zip(e.keys, e.values):
+            kk = fd.fold(k)
+            out[kk] = _fold_val(fd, v)
+        return out
+    if isinstance(e, ast.Tuple):
+        return tuple(_fold_val(fd, x) for x in e.elts)
+    if isinstance(e, ast.Name) and e.id in fd.env:
+        return fd.env[e.id]
+    return fd.fold(e)
